@@ -101,4 +101,7 @@ def install_in_worker():
     if here != want:
         print(f"HARNESS-ERROR groupby_lib imported from {here}, expected {want}", file=sys.stderr)
         sys.exit(2)
+    from . import contracts
+
+    contracts.install()
     return groupby_lib
